@@ -14,6 +14,9 @@ pub enum Mode {
     Sticky(u32),
     /// priority based, `depth` priority change points (PCT-like)
     Pct(u32),
+    /// run the chosen task for a burst of k decisions, then force a switch to another task; k is
+    /// drawn around small numbers and around multiples of the per-line cost of the scenario
+    Burst,
     /// explicit list of task ids; when it runs out (or names a task that is not runnable)
     /// stay on the current task if runnable, else the lowest runnable id
     Replay(Vec<u8>),
@@ -25,14 +28,16 @@ impl Mode {
             Mode::Uniform => "uniform",
             Mode::Sticky(_) => "sticky",
             Mode::Pct(_) => "pct",
+            Mode::Burst => "burst",
             Mode::Replay(_) => "replay",
         }
     }
     pub fn draw(rng: &mut Rng) -> Mode {
-        match rng.weighted(&[40, 35, 25]) {
+        match rng.weighted(&[34, 30, 22, 14]) {
             0 => Mode::Uniform,
             1 => Mode::Sticky(*rng.pick(&[5, 20, 50])),
-            _ => Mode::Pct(1 + rng.below(3) as u32),
+            2 => Mode::Pct(1 + rng.below(3) as u32),
+            _ => Mode::Burst,
         }
     }
 }
@@ -83,6 +88,9 @@ pub struct SimScheduler {
     prio: Vec<u64>,
     change_points: Vec<u64>,
     next_low: u64,
+    // Burst state
+    burst_left: u64,
+    burst_unit: u64,
 }
 
 impl SimScheduler {
@@ -98,19 +106,28 @@ impl SimScheduler {
             prio: Vec::new(),
             change_points: Vec::new(),
             next_low: 1_000,
+            burst_left: 0,
+            burst_unit: 1,
         }
     }
 
     fn arm(&mut self, plan: &Plan) {
         let mut rng = Rng::new(plan.sched_seed);
         let mut change_points = Vec::new();
+        // rough length of this run in decisions: about three per indexed line and call
+        let nlines = simcore::refview::RefView::new(&plan.scenario.text).line_count() as u64;
+        let est = 10 + 3 * nlines * (plan.scenario.total_calls() as u64 + 2);
         if let Mode::Pct(depth) = plan.mode {
-            // horizon: these scenarios take 10..120 decisions; draw change points early-biased
+            // change points early-biased for the small scenarios, and scaled to the estimated
+            // length for the long ones (otherwise every priority change of a 50 000-step run
+            // would fall into its first hundred steps)
             for _ in 0..depth {
-                let horizon = *rng.pick(&[12u64, 24, 48, 96]);
+                let horizon = *rng.pick(&[12u64, 24, 48, 96, est / 4 + 1, est / 2 + 1, est + 1]);
                 change_points.push(rng.below(horizon));
             }
         }
+        self.burst_left = 0;
+        self.burst_unit = (3 * nlines).max(1);
         self.rng = rng;
         self.mode = plan.mode.clone();
         self.pos = 0;
@@ -154,7 +171,13 @@ impl Scheduler for SimScheduler {
         let cur = current.map(usize::from);
         let cur_runnable = cur.map(|c| ids.contains(&c)).unwrap_or(false);
         let mut diverged = false;
-        let choice = match &self.mode {
+        // a task that asks to yield (spin loop, try_lock + yield_now) must not be re-chosen forever
+        // by a priority scheduler: prefer any other runnable task
+        let others: Vec<usize> = ids.iter().copied().filter(|i| Some(*i) != cur).collect();
+        let choice = if _is_yielding && !others.is_empty() && !matches!(self.mode, Mode::Replay(_)) {
+            others[self.rng.below_usize(others.len())]
+        } else {
+            match &self.mode {
             Mode::Uniform => ids[self.rng.below_usize(ids.len())],
             Mode::Sticky(pct) => {
                 if cur_runnable && !self.rng.chance(*pct as u64, 100) {
@@ -181,6 +204,26 @@ impl Scheduler for SimScheduler {
                 }
                 *ids.iter().max_by_key(|&&i| (self.prio[i], usize::MAX - i)).unwrap()
             }
+            Mode::Burst => {
+                if self.burst_left > 0 && cur_runnable {
+                    self.burst_left -= 1;
+                    cur.unwrap()
+                } else {
+                    // new burst: another task if there is one
+                    let pool = if others.is_empty() { &ids } else { &others };
+                    let pick = pool[self.rng.below_usize(pool.len())];
+                    let unit = self.burst_unit;
+                    self.burst_left = match self.rng.below(6) {
+                        0 => 0,
+                        1 => self.rng.below(4),
+                        2 => self.rng.below(12),
+                        3 => unit.saturating_sub(2) + self.rng.below(5),
+                        4 => (unit * (1 + self.rng.below(3))).saturating_sub(2) + self.rng.below(5),
+                        _ => unit / 2 + self.rng.below(3),
+                    };
+                    pick
+                }
+            }
             Mode::Replay(list) => {
                 let want = list.get(self.pos).map(|&b| b as usize);
                 match want {
@@ -196,6 +239,7 @@ impl Scheduler for SimScheduler {
                         }
                     }
                 }
+            }
             }
         };
         self.pos += 1;
